@@ -2,6 +2,7 @@ package machine
 
 import (
 	"fmt"
+	"maps"
 	"slices"
 	"sort"
 )
@@ -521,7 +522,8 @@ func (g *graph) TopologicalSort() ([]string, error) {
 		return nil
 	}
 
-	for node := range g.vertices {
+	// deterministic: map iteration order would leak into the handlers' order
+	for _, node := range slices.Sorted(maps.Keys(g.vertices)) {
 		if !visited[node] {
 			if err := visit(node); err != nil {
 				return nil, err
